@@ -366,6 +366,25 @@ func (c *Ctx) singleEdits(f Fileset) (out []struct {
 		if i > 0 && !hasKids {
 			// rename leaf to a fresh sibling name
 			mod("name", func(x *Entry) { x.Name += "~r" })
+			// change one byte of the basename (other invalid-UTF-8 bytes included): names are byte strings
+			mod("name byte", func(x *Entry) {
+				b := []byte(x.Name)
+				j := strings.LastIndexByte(x.Name, '/') + 1 + c.Intn(len(b)-strings.LastIndexByte(x.Name, '/')-1)
+				nb := byte(0x80 + c.Intn(0x7f))
+				if b[j] >= 0x80 {
+					nb = b[j] ^ byte(1+c.Intn(0x3f))
+					if nb < 0x80 {
+						nb |= 0x80
+					}
+				}
+				if nb == b[j] {
+					nb ^= 1
+				}
+				b[j] = nb
+				x.Name = string(b)
+			})
+			mod("name invalid run", func(x *Entry) { x.Name += "\xff" })
+			mod("name invalid run+1", func(x *Entry) { x.Name += "\xff\xfe" })
 			// delete leaf
 			g := append(f[:i:i].clone(), f[i+1:].clone()...)
 			add(fmt.Sprintf("deletion of entry %q (%c)", e.Name, e.Kind), i, g)
@@ -509,6 +528,9 @@ func hashEngine(c *Ctx) {
 		}
 		// --- C04: every single edit changes the pre-image (quick: a sample of the edits)
 		edits := c.singleEdits(fsx)
+		seenRes := map[string]string{}
+		seenCls := map[string]string{}
+		seenOp := map[string]string{}
 		for ei, ed := range edits {
 			if c.Tier != "thorough" && k >= len(corpus) && ei%3 != k%3 {
 				continue
@@ -525,6 +547,18 @@ func hashEngine(c *Ctx) {
 			}
 			if !strings.HasPrefix(r, "ok") {
 				c.PropFail("edit-panic", ed.desc+" made a well-formed bucket panic: "+r, op)
+			}
+			// two different edits of the same fileset are two different filesets: they must not collide either
+			if prev, dup := seenRes[r]; dup && strings.HasPrefix(r, "ok") && r != pre && seenOp[r] != op {
+				if ed.class == "nonfiledir" && seenCls[r] == "nonfiledir" {
+					c.PropFail("nonfiledir-not-hashed", ed.desc+" and "+prev+" give the same tree hash", op)
+				} else {
+					c.PropFail("collision", ed.desc+" and "+prev+" give the same tree hash", op)
+				}
+			} else {
+				seenRes[r] = ed.desc
+				seenCls[r] = ed.class
+				seenOp[r] = op
 			}
 		}
 	}
